@@ -78,6 +78,16 @@ def run(ctx):
                       "steps": [{"t": "send", "c": "c1", "k": "auth", "u": "u1", "p": "p1", "a": False}, {"t": "hup", "n": 2}, {"t": "send", "c": "c2", "k": "list", "u": "", "p": "", "a": False},
                                 {"t": "hup", "n": 2}, {"t": "send", "c": "c3", "k": "list", "u": "", "p": "", "a": False}, {"t": "hup", "n": 2},
                                 {"t": "send", "c": "c4", "k": "auth", "u": "u2", "p": "p2", "a": False}, {"t": "free"}]})
+    # ... and with one (the hooks caller runs its real loop): reloads without any change in between, then changes
+    hd = os.path.join(ctx.scratch, "c10-hooks.d")
+    os.makedirs(hd, exist_ok=True)
+    open(os.path.join(hd, "10-log"), "w").write("#!/bin/sh\nexit 0\n")
+    os.chmod(os.path.join(hd, "10-log"), 0o755)
+    scenarios.append({"name": "reloads-with-hooks-dir", "mode": "", "default": 2, "files": up, "passwords": af.PASSWORDS, "gated": False, "seed": 1,
+                      "novalidate": True, "hooks_dir": hd,
+                      "steps": [{"t": "send", "c": "c1", "k": "update", "u": "u1", "p": "p3", "a": False}, {"t": "hup", "n": 2}, {"t": "hup", "n": 2}, {"t": "hup", "n": 2},
+                                {"t": "send", "c": "c2", "k": "auth", "u": "u2", "p": "p2", "a": False}, {"t": "send", "c": "c3", "k": "update", "u": "u1", "p": "p1", "a": False},
+                                {"t": "hup", "n": 2}, {"t": "hup", "n": 2}, {"t": "send", "c": "c4", "k": "list", "u": "", "p": "", "a": False}, {"t": "free"}]})
     # the upgrade queue (= the update queue in local mode) kept near its capacity by clients while logins of an upgradeable user
     # keep asking for upgrades; every write fails with an I/O error, so the user stays upgradeable
     scenarios.append({"name": "upgrade-queue-at-capacity", "mode": "local", "default": 2, "files": up, "passwords": af.PASSWORDS, "gated": False, "seed": 5,
